@@ -20,8 +20,8 @@ PROPS = {
               "verdict from the responses alone: a response never carries more payload than the size the request named, payloads concatenate to the body, non-final blocks are full with the more flag, numbers match offsets, every block repeats the application's options, the application ran exactly once, follow-ups were answered by the handler, the cache entry is gone after the final block; class 1 empty body / 2 unfragmented / 3 fragmented / 4 fragmented with early negotiation; distinct = distinct input"),
         level_text=("Theorems: C08_block_served (for every body incl. the empty one, block number and size: the served payload is bytes [num*size, num*size+size) of the cached body, the more flag is set iff bytes remain, on a copy of the application's version/type/code/options), "
                     "C08_chunks_reassemble / _from (for every body and block size the chunks taken in order concatenate to the body: induction on the remaining length), C08_followup_from_cache (a follow-up block is answered from the cache without consulting the application and the entry is released exactly when the served block is the last), "
-                    "C08_followups_served (a whole run of follow-ups k, k+1, ... up to the one covering the end of the body, any number of them: all answered from the cache, payloads exactly the chunks of the body from offset k*size, entry released afterwards -- with C08_chunks_reassemble the client's concatenation is the body)."),
-        level_note=COMMON_BLOCK_NOTE + " The whole-transfer theorem is stated at one block size; a transfer in which the client changes the size mid-way is decided by the suite's oracle on complete transfers.",
+                    "C08_followups_served (a whole run of follow-ups k, k+1, ... up to the one covering the end of the body, any number of them: all answered from the cache, payloads exactly the chunks of the body from offset k*size, entry released afterwards -- with C08_chunks_reassemble the client's concatenation is the body), C08_renegotiated_followups_served (the same when every follow-up names its own size, numbers agreeing with the running offset), C08_first_fragment, C08_whole_transfer (first exchange + follow-ups end to end: the concatenation is the body the application produced, the application is consulted once, the entry is released) and C08_served_within_size (no served block exceeds the size its request names)."),
+        level_note=COMMON_BLOCK_NOTE + "",
         modelled="src/block_handler/mod.rs intercept_request, intercept_response, maybe_handle_request_block2, maybe_serve_cached_response, packet_clone_limited, negotiate_block_size_if_necessary",
     ),
     "C09": dict(
@@ -32,7 +32,7 @@ PROPS = {
               "class 1 plain / 2 after an abandoned upload / 3 too large; distinct = distinct input"),
         level_text=("Theorems: C09_splice_extends_prefix (whatever the buffer holds beyond it: once the buffer agrees with the body up to a block's offset, splicing the block in extends the agreement -- so in-order delivery with repeats reconstructs the prefix), C09_final_block_body (the body handed over at the final block is exactly the body sent), "
                     "C09_block_answer (2.31 Continue + negotiated Block1 without reaching the application for non-final blocks; hand-over with Block1 on the response for the final one), C09_too_large (4.13 with Block1 num 0, more set), C09_upload_delivers_body (the buffer handling over a whole in-order upload at any block size, on top of ANY stale buffer, yields exactly the body) and "
-                    "C09_upload_run (the same on handle_block1 itself with its size negotiation and response building: a run of in-order block requests from block 0 either reports one of the documented errors or answers every block but the last with Continue and hands over a request whose payload is exactly the body, buffer released). Known finding KF_dup_final (C09_KF_dup_final_refuted)."),
+                    "C09_ack_echoes (inside the domain -- the budget admits the client's block size -- the acknowledgement echoes the client's own number and size), C09_upload_with_repeats (every non-final block delivered any number of times in a row) and C09_upload_run (the same on handle_block1 itself with its size negotiation and response building: a run of in-order block requests from block 0 either reports one of the documented errors or answers every block but the last with Continue and hands over a request whose payload is exactly the body, buffer released). Known finding KF_dup_final (C09_KF_dup_final_refuted)."),
         level_note=COMMON_BLOCK_NOTE,
         modelled="src/block_handler/mod.rs maybe_handle_request_block1, extending_splice, negotiate_block_size_if_necessary",
     ),
@@ -146,7 +146,7 @@ PROPS = {
               "(set twice, set after raw add); kinds 9-11 set_from_message and the readable view through coap-message 0.2 and 0.3 on random messages; verdict computed on the raw state only; class = kind; non-trivial = in domain; distinct = distinct input"),
         level_text=("Theorems for all packet states: C19_method / C19_status (getter after setter returns the value for all 8 / 28 variants, nothing else changes), C19_method_of_code / C19_status_of_code (what the getters read for each of the 256 code bytes), "
                     "C19_path (raw Uri-Path values = segments, get_path = the string minus one leading slash, get_path_as_vec = the segments, other options untouched) with the inductive lemma C19_path_join, C19_observe_flag / C19_observe_flag_raw, "
-                    "C19_content_format (set_content_format then get_content_format returns the format whatever was there before; raw option 12 = [minimal uint]), C19_copy (set_from_message into a fresh packet preserves code byte, flattened options in ascending order, payload), C19_valid_string_segments / C19_path_valid_string (every valid UTF-8 string has valid segments -- byte 47 never occurs inside a multi-byte sequence --, so the path round trip holds for EVERY valid string), C19_model_passes_oracle_part (kinds 0-3, 5, 11 of suite 190: the model satisfies the oracle on every input)."),
+                    "C19_content_format (set_content_format then get_content_format returns the format whatever was there before; raw option 12 = [minimal uint]), C19_copy (set_from_message into a fresh packet preserves code byte, flattened options in ascending order, payload), C19_valid_string_segments / C19_path_valid_string (every valid UTF-8 string has valid segments -- byte 47 never occurs inside a multi-byte sequence --, so the path round trip holds for EVERY valid string), C19_model_passes_oracle_* for every kind of suite 190 (method / status, set_path, path getters, observe flag set / get, content format, set_from_message of coap-message 0.2 and 0.3 into any destination, the read views): the model satisfies the oracle on every input."),
         level_note=("Hand-written models of the accessors and trait impls tied to the Rust by differential execution (dev and release). "
                     "The option-flattening iterator of the trait impls is modelled as flatten; its loop is covered by the differential run only."),
         modelled="src/request.rs get/set_method, set_path, get_path, get_path_as_vec, get/set_observe_flag; src/response.rs get/set_status; src/packet.rs set/get_content_format; src/impl_coap_message.rs, src/impl_coap_message_0_3.rs (ReadableMessage, MinimalWritableMessage incl. provided set_from_message)",
@@ -170,7 +170,7 @@ PROPS = {
               "(add_option_as / set_options_as per width and for strings, set_observe_value, get_observe_value and get_content_format on raw states); verdict computed from be_min / be_value only; non-trivial = in the accessor's domain; class = kind; distinct = distinct input"),
         level_text=("Theorems for every value and width, no bound: C06_encode_minimal (the drain loop with its assert yields be_min v for v < 256^w), C06_min_value / C06_min_no_leading_zero / C06_min_length (be_min is the shortest big-endian form; zero is empty), "
                     "C06_decode (any string up to the width decodes to its big-endian value, longer ones are rejected; the 64-bit shift-and-add loses nothing and the final cast is exact), C06_roundtrip, C06_add_option_as and C06_observe_value "
-                    "(typed setters store exactly these encodings and touch nothing else; typed getters read them back). By induction on the value / the byte string. C06_model_passes_oracle_codec: the codec entry points (kinds 0-2 of suite 60) satisfy the suite's oracle on every input."),
+                    "(typed setters store exactly these encodings and touch nothing else; typed getters read them back). By induction on the value / the byte string. C06_model_passes_oracle: the model satisfies the suite-60 oracle on EVERY input (codec, lists of typed values added to / set on any raw packet state, set_observe_value, set_content_format, the typed getters)."),
         level_note=("Hand-written models of option_value.rs and the typed accessors tied to the Rust by differential execution (~2*10^5 cases, dev and release). C06_string is true by definition of the UTF-8 validity model (Utf8.v, Unicode table 3-7); "
                     "that model is tied to String::from_utf8 by the differential run only."),
         modelled="src/option_value.rs (option_from_uint, option_to_uint, OptionValueU8/16/32/64, OptionValueString); src/packet.rs add_option_as, set_options_as, get_options_as, get_first_option_as, set/get_observe_value, get_content_format",
